@@ -355,9 +355,13 @@ func (h *verifC11App) verifExecWrap(t verifC11Wrapper) func(c *kit.C11Case) stri
 			}
 		}
 		try(len(data))
-		if segMode != 0 && len(data) <= 256 {
-			for n := 0; n < len(data); n++ { // every shorter buffer the handler could present
-				try(n)
+		if segMode != 0 { // shorter buffers the handler could present, around every threshold
+			for _, th := range []int{0, 32, 64, 85, 109, 141} {
+				for n := th - 1; n <= th+1; n++ {
+					if n >= 0 && n < len(data) {
+						try(n)
+					}
+				}
 			}
 		}
 		return out
@@ -373,7 +377,7 @@ func TestVerifC11Handler(t *testing.T) {
 	for name := range h.ips {
 		before[name] = h.s.rm.CountRegistrations(h.ips[name])
 	}
-	n := kit.Tier(40000, 2000000)
+	n := kit.Tier(40000, 500000) // thorough is scaled down from 2 M: ~0.5 ms of curve arithmetic per case
 	kit.C11Drive(rec, kit.C11Entry{Name: "application.handleNewTCPConn", N: n, Workers: 192, Budget: 60 * time.Second,
 		Gen: h.verifGen(kit.Tier(8, 400)), Exec: h.verifExecHandler, SampleEvery: 5000})
 	for _, e := range []struct {
